@@ -254,6 +254,9 @@ let run (op : string) (a : string list) : string list =
   | "var_write", [dir; name; g; attrs; value; ok; trace] ->
       [verdict (check_write (bytes_of_hex dir) (bytes_of_hex name) (guid_of_string g) (n_of_string attrs)
                   (bytes_of_hex value) (bool_of_string01 ok) (List.map fs_obs_of_string (split '&' trace)))]
+  | "var_write_short", [dir; name; g; attrs; value; ok; trace] ->
+      [verdict (check_write_short (bytes_of_hex dir) (bytes_of_hex name) (guid_of_string g) (n_of_string attrs)
+                  (bytes_of_hex value) (bool_of_string01 ok) (List.map fs_obs_of_string (split '&' trace)))]
   | "var_read", [content; required; api; obs] ->
       let chk = if api = "legacy" then check_read_legacy else check_read in
       [verdict (chk (content_of_string content) (n_of_string required)
